@@ -1367,10 +1367,16 @@ def instances_at(p, terms):
     (instantiation hints, DESIGN 3.7: the clauses are premises, so this is sound)"""
     out = []
     for nm, f in Inv(p):
+        if not nm.startswith(HINT_CLAUSES):
+            continue
         if z3.is_quantifier(f) and f.num_vars() == 1 and f.var_sort(0) == INT:
             for t in terms:
                 out.append(z3.substitute_vars(f.body(), t))
     return out
+
+
+# the clauses the prefix-closure arguments use at the hinted addresses
+HINT_CLAUSES = ("I2:parent", "I3:parent-of-a-head", "I3:child's-parent", "I7:path")
 
 
 def closure_step_lemma(ex, p):
